@@ -14,6 +14,17 @@ python simulator both create one wrapper per node in one process; `ids`, `who`, 
 their callbacks interleaved; the protocol keeps state (it counts its callbacks and reads its tracked
 variables back into requests), and callbacks repeat with equal content (a stationary node's telemetry,
 a re-sent packet, a periodic timer).
+
+The protocol USES what its extensions return the way a caller may: the list `take_picture()` hands it
+is completed (append / extend / insert / +=) before the number of entries goes into a broadcast.
+
+Protocols built from plugins: like every stock plugin, the table protocol can ask for the dispatcher of
+its instance (`create_dispatcher`, which replaces the instance's callback methods) from `initialize()`
+— i.e. after the wrapper instantiated it — or when the first event arrives, and register handlers in
+front of its callbacks (own action lists, CONTINUE / INTERRUPT per callback).  A second kind of case
+(`kind: plugins`) builds a protocol from the real stock plugins (mission, random trip, leader,
+follower), drives it through their public methods and compares, callback by callback, the requests
+the python-side handlers saw with the consequences interop returned.
 """
 import copy
 import json
@@ -36,6 +47,13 @@ from gradysim.protocol.messages.communication import (SendMessageCommand, Broadc
 from gradysim.protocol.messages.mobility import (GotoCoordsMobilityCommand, GotoGeoCoordsMobilityCommand,
                                                  SetSpeedMobilityCommand, MobilityCommandType)
 from gradysim.protocol.messages.telemetry import Telemetry
+from gradysim.protocol.plugin.dispatcher import create_dispatcher, DispatchReturn
+from gradysim.protocol.plugin.follow_mobility import (MobilityLeaderPlugin, MobilityLeaderConfiguration,
+                                                      MobilityFollowerPlugin, MobilityFollowerConfiguration,
+                                                      BROADCAST_TIMER_TAG, FOLLOWER_TIMER_TAG, LEADER_TAG, FOLLOWER_TAG)
+from gradysim.protocol.plugin.mission_mobility import (MissionMobilityPlugin, MissionMobilityConfiguration, LoopMission,
+                                                       MissionMobilityPluginException)
+from gradysim.protocol.plugin.random_mobility import RandomMobilityPlugin, RandomMobilityConfig
 from gradysim.simulator.extension.camera import CameraHardware, CameraConfiguration
 from gradysim.simulator.extension.communication_controller import CommunicationController
 from gradysim.simulator.extension.visualization_controller import VisualizationController
@@ -43,6 +61,11 @@ from gradysim.simulator.handler.interface import INodeHandler
 from gradysim.simulator.node import Node
 
 NAMES = ["a", "b", "c"]
+CB_KINDS = ["initialize", "timer", "packet", "telemetry", "finish"]
+# what a protocol does to the list `take_picture()` handed to it before it reports the number of entries
+# (the list is the caller's: in the python simulator it is built anew for every picture), and how many
+# entries that adds to a picture on which nobody else is to be seen
+PIC_HOWS = {"read": 0, "append": 1, "extend": 2, "insert": 1, "iadd": 1}
 EXT_METHODS = ["camera.take_picture", "camera.change_facing", "vis.paint_node", "vis.paint_environment",
                "vis.resize_nodes", "vis.show_node_id"]
 
@@ -96,7 +119,7 @@ class Behaviour:
         p = {"counts": [0, 0, 0, 1, 2, 3, 4, 5, 6, 8],
              "w": {"setTimer": 5, "send": 3, "broadcast": 2, "goto": 1.5, "gotoGeo": 0.7, "setSpeed": 1,
                    "track": 2, "ext": 1.5, "setRange": 0.7, "cancelTimer": 0.3,
-                   "trackInc": 0.0, "sendTracked": 0.0, "sendCount": 0.0},
+                   "trackInc": 0.0, "sendTracked": 0.0, "sendCount": 0.0, "picReport": 0.5},
              "offsets": [0, 1, 512, 1024, 4096, -1, -2048], "pGuarded": 0.0, "pBadDst": 0.2}
         p.update(profile or {})
         self.p = p
@@ -119,8 +142,24 @@ class Behaviour:
                 out.append(a)
         return out
 
+    def react_stages(self, n, kind, key, t, count):
+        """the dispatcher handlers of a protocol that plugs `count` of them in front of its own callbacks:
+        one action list per handler, and the handler (if any) that answers INTERRUPT to this callback"""
+        p = self.p
+        if not isinstance(t, int):
+            return [[] for _ in range(count)], None
+        r = random.Random(stable_hash(self.seed, "stages", n, kind, key, t))
+        kinds = list(p["w"].keys())
+        weights = [p["w"][x] for x in kinds]
+        stages = [[self.make(r, r.choices(kinds, weights)[0], n, t) for _ in range(r.choice([0, 1, 1, 2, 3]))]
+                  for _ in range(count)]
+        stop = r.randrange(count) if r.random() < p.get("pInterrupt", 0.3) else None
+        return stages, stop
+
     def make(self, r, op, n, t):
         p = self.p
+        if op == "picReport":
+            return ["picReport", r.choice(["read", "append", "append", "append", "extend", "insert", "iadd"])]
         if op == "setTimer":
             return ["setTimer", r.choice(NAMES), t + r.choice(p["offsets"])]
         if op == "cancelTimer":
@@ -260,38 +299,63 @@ class Recorder:
         for row in case.get("table", []):
             self.table[trig_key(row["n"], row["cb"], row["key"], row["t"])] = row
         self.frozen = bool(case.get("frozen"))
-        self.transcripts = []      # one list of [act, ok] per callback
+        plug = case.get("plug") or {}
+        self.stages = int(plug.get("stages", 0))     # dispatcher handlers the protocol puts in front of its callbacks
+        self.plug_at = plug.get("at", "initialize") if self.stages else None
+        self.transcripts = []      # one list of [act, ok] per delivered callback (all the handlers it reached)
+        self.activations = []      # per delivered callback: the handlers reached, ["own" | stage, id, kind, key, time, pos]
+        self.own_calls = []        # per delivered callback: how often the protocol's own method ran
         self.exc = []              # exception type names of refused calls, in order
-        self.triggers = []         # what the protocol read: (id, kind, key, time)
+        self.triggers = []         # what the protocol's own methods read: (id, kind, key, time)
         self.seen_pos = []         # ... and the position a telemetry callback carried (None otherwise)
         self.ext_bad = []          # extension calls that returned a non-neutral value
         self.log = []              # python side: [handler, request, node id, instance the node object belongs to]
         self.nodes = []            # python side: the Node objects, by instance
         self.now = 0.0
         self.ext = {}
+        self.opened = True
 
     def inst(self, node):
         return next((k for k, nd in self.nodes if nd is node), None)
 
-    def on_callback(self, proto, kind, key, telemetry=None):
-        tr = []
-        self.transcripts.append(tr)
-        proto.seen = getattr(proto, "seen", 0) + 1       # protocol-local state: callbacks received
-        n = proto.provider.get_id()
-        t = to_ticks(proto.provider.current_time())
-        self.triggers.append([n, kind, key, t])
-        try:
-            self.seen_pos.append(None if telemetry is None else [fbits(float(c)) for c in telemetry.current_position])
-        except Exception:
-            self.seen_pos.append(["garbled", repr(telemetry)[:80]])
+    def begin_step(self):
+        """the driver is about to deliver one callback to a wrapper"""
+        self.transcripts.append([])
+        self.activations.append([])
+        self.own_calls.append(0)
+        self.opened = False
+
+    def enter(self, proto):
+        """a handler of the protocol was reached; the first one of a delivered callback counts it"""
+        if not self.transcripts:
+            self.begin_step()
+        if not self.opened:
+            self.opened = True
+            proto.seen = getattr(proto, "seen", 0) + 1       # protocol-local state: callbacks received
+        return self.transcripts[-1]
+
+    def row_for(self, n, kind, key, t):
         k = trig_key(n, kind, key, t)
         row = self.table.get(k)
         if row is None:
-            acts = [] if (self.frozen or self.behaviour is None) else self.behaviour.react(n, kind, key, t)
-            row = {"n": n, "cb": kind, "key": key, "t": t, "acts": acts, "uncaught": False}
+            live = not (self.frozen or self.behaviour is None)
+            row = {"n": n, "cb": kind, "key": key, "t": t, "uncaught": False,
+                   "acts": self.behaviour.react(n, kind, key, t) if live else []}
+            if self.stages:
+                row["stages"], row["stop"] = self.behaviour.react_stages(n, kind, key, t, self.stages) if live else \
+                    ([[] for _ in range(self.stages)], None)
             self.table[k] = row
-        unc = bool(row.get("uncaught"))
-        for spec in row["acts"]:
+        return row
+
+    @staticmethod
+    def pos_of(telemetry):
+        try:
+            return None if telemetry is None else [fbits(float(c)) for c in telemetry.current_position]
+        except Exception:
+            return ["garbled", repr(telemetry)[:80]]
+
+    def run_acts(self, proto, acts, tr, unc):
+        for spec in acts:
             if spec[0] == "onRefused":
                 if not self.issue(proto, spec[1], tr, unc):
                     for alt in spec[2]:
@@ -299,9 +363,50 @@ class Recorder:
             else:
                 self.issue(proto, spec, tr, unc)
 
+    def on_callback(self, proto, kind, key, telemetry=None):
+        """the protocol's own initialize / handle_* / finish"""
+        tr = self.enter(proto)
+        self.own_calls[-1] += 1
+        n = proto.provider.get_id()
+        t = to_ticks(proto.provider.current_time())
+        self.triggers.append([n, kind, key, t])
+        self.seen_pos.append(self.pos_of(telemetry))
+        self.activations[-1].append(["own", n, kind, key, t, self.pos_of(telemetry)])
+        if (self.plug_at == "initialize" and kind == "initialize") or \
+                (self.plug_at == "lazy" and kind in ("timer", "packet", "telemetry")):
+            self.plug(proto)
+        row = self.row_for(n, kind, key, t)
+        self.run_acts(proto, row["acts"], tr, bool(row.get("uncaught")))
+
+    def on_stage(self, proto, stage, kind, key, telemetry=None):
+        """handler number `stage` of the protocol's dispatcher chain; answers CONTINUE or INTERRUPT"""
+        tr = self.enter(proto)
+        n = proto.provider.get_id()
+        t = to_ticks(proto.provider.current_time())
+        self.activations[-1].append([stage, n, kind, key, t, self.pos_of(telemetry)])
+        row = self.row_for(n, kind, key, t)
+        stages = row.get("stages") or []
+        self.run_acts(proto, stages[stage] if stage < len(stages) else [], tr, bool(row.get("uncaught")))
+        return DispatchReturn.INTERRUPT if row.get("stop") == stage else DispatchReturn.CONTINUE
+
+    def plug(self, proto):
+        """what every stock plugin does (usually from the protocol's initialize(), where the provider is
+        there): ask for the protocol instance's dispatcher and register handlers in front of its callbacks"""
+        if getattr(proto, "plugged", False):
+            return
+        proto.plugged = True
+        rec = self
+        for stage in range(self.stages):
+            d = create_dispatcher(proto)
+            d.register_initialize(lambda p, s=stage: rec.on_stage(p, s, "initialize", ""))
+            d.register_handle_timer(lambda p, timer, s=stage: rec.on_stage(p, s, "timer", timer))
+            d.register_handle_packet(lambda p, message, s=stage: rec.on_stage(p, s, "packet", message))
+            d.register_handle_telemetry(lambda p, telemetry, s=stage: rec.on_stage(p, s, "telemetry", "", telemetry))
+            d.register_finish(lambda p, s=stage: rec.on_stage(p, s, "finish", ""))
+
     def resolve(self, proto, act):
         """the request actually made: entries whose content depends on what the protocol instance has
-        seen (`self.seen`) or reads back from `provider.tracked_variables`"""
+        seen (`self.seen`), reads back from `provider.tracked_variables`, or is told by its camera"""
         op = act[0]
         if op == "trackInc":
             tv = proto.provider.tracked_variables
@@ -310,11 +415,30 @@ class Recorder:
             return ["broadcast", f"{act[1]}={proto.provider.tracked_variables.get(act[1], '-')}"]
         if op == "sendCount":
             return ["broadcast", f"n={proto.seen}"]
+        if op == "picReport":
+            # the picture is the caller's list: the protocol completes it with what it knows itself and
+            # reports how many entries it has now
+            pic = call_ext(self, proto, "camera.take_picture")
+            if self.wrapper == "interop" and not is_neutral("camera.take_picture", pic):
+                self.ext_bad.append(["camera.take_picture", repr(pic)[:80]])
+            me = {"position": (0.0, 0.0, float(proto.provider.get_id())), "type": "self"}
+            how = act[1]
+            if how == "append":
+                pic.append(me)
+            elif how == "extend":
+                pic.extend([me, dict(me, type="remembered")])
+            elif how == "insert":
+                pic.insert(0, me)
+            elif how == "iadd":
+                pic += [me]
+            elif how != "read":
+                raise ValueError(how)
+            return ["broadcast", f"pic={len(pic)}"]
         return act
 
     def issue(self, proto, act, tr, uncaught):
-        act = self.resolve(proto, act)
         try:
+            act = self.resolve(proto, act)
             self.perform(proto, act)
         except Exception as e:
             tr.append([act, False])
@@ -438,7 +562,7 @@ def run_interop(case, behaviour):
     for i in leg_steps(case, "interop"):
         step, enc = case["steps"][i], encs[who[i]]
         enc.set_timestamp(step[0] / TICK)
-        n0 = len(rec.transcripts)
+        rec.begin_step()
         try:
             ret = deliver(enc, step)
             ret = None if ret is None else [decode_consequence(c) for c in ret]
@@ -446,8 +570,8 @@ def run_interop(case, behaviour):
                 ret = "returned-None"
         except Exception as e:
             ret = "raised:" + type(e).__name__
-        tr = rec.transcripts[n0] if len(rec.transcripts) > n0 else []
-        out.append({"ret": ret, "transcript": tr, "calls": len(rec.transcripts) - n0})
+        out.append({"ret": ret, "transcript": rec.transcripts[-1], "calls": rec.own_calls[-1],
+                    "reached": rec.activations[-1]})
     pending_by = {k: len(encs[k].provider.consequences) for k in present}
     # the real extension objects, built directly on the interop-wrapped protocol, every public method
     ext = []
@@ -491,21 +615,272 @@ def run_python(case, behaviour):
     for i in leg_steps(case, "python"):
         step = case["steps"][i]
         rec.now = step[0] / TICK
-        n0 = len(rec.transcripts)
+        rec.begin_step()
         try:
             deliver(encs[who[i]], step)
             raised.append(None)
         except Exception as e:
             raised.append(type(e).__name__)
-        calls.append(len(rec.transcripts) - n0)
-        if len(rec.transcripts) == n0:
-            rec.transcripts.append([])
-        elif len(rec.transcripts) > n0 + 1:          # delivered more than once: keep one slot per step
-            merged = [x for tr in rec.transcripts[n0:] for x in tr]
-            del rec.transcripts[n0:]
-            rec.transcripts.append(merged)
-    return {"log": rec.log, "transcripts": rec.transcripts, "raised": raised, "calls": calls,
+        calls.append(rec.own_calls[-1])
+    return {"log": rec.log, "transcripts": rec.transcripts, "raised": raised, "calls": calls, "reached": rec.activations,
             "table": list(rec.table.values()), "triggers": rec.triggers, "seenPos": rec.seen_pos, "exc": rec.exc}
+
+
+# ---------------------------------------------------------------------------------- protocols built from the stock plugins
+class _PlugRec:
+    def __init__(self):
+        self.cur = []
+        self.now = 0.0
+        self.refused = False
+
+
+class PlugTimerStub(_Stub):
+    def get_current_time(self):
+        return self.rec.now
+
+    def set_timer(self, timer, timestamp, node):
+        self.rec.cur.append(["setTimer", timer, fbits(float(timestamp))])
+        if timestamp < self.rec.now:
+            self.rec.refused = True
+            raise StubRefused("past")
+
+    def cancel_timer(self, timer, node):
+        self.rec.cur.append(["cancelTimer", timer])
+
+
+class PlugCommStub(_Stub):
+    def handle_command(self, command, node):
+        a = decode_comm(command)
+        self.rec.cur.append(a)
+        if a[0] == "send" and (a[2] is None or a[2] == node.id):
+            self.rec.refused = True
+            raise StubRefused("destination")
+
+
+class PlugMobStub(_Stub):
+    def __init__(self, rec):
+        super().__init__(rec)
+        self.nodes = {}
+
+    def handle_command(self, command, node):
+        self.rec.cur.append(decode_mob(command))
+
+
+def plain_request(c):
+    """a consequence returned by interop, as the request it stands for (times as float bits)"""
+    try:
+        typ, payload = c
+        if typ == ConsequenceType.COMMUNICATION:
+            return decode_comm(payload)
+        if typ == ConsequenceType.MOBILITY:
+            return decode_mob(payload)
+        if typ == ConsequenceType.TIMER:
+            return ["setTimer", payload[0], fbits(float(payload[1]))]
+        if typ == ConsequenceType.TRACK_VARIABLE:
+            return ["track", payload[0], repr(payload[1])]
+    except Exception:
+        pass
+    return ["garbled", repr(c)[:120]]
+
+
+def make_plugin_protocol(case):
+    """a protocol put together the documented way: it creates stock plugins (every one of them hooks into the
+    protocol instance through `create_dispatcher`) in `initialize()` — or when the first timer fires —, drives
+    them through their public methods and reports what their public properties say"""
+    specs, at = case["plugins"], case.get("at", "initialize")
+
+    class PluginProtocol(IProtocol):
+        def initialize(self):
+            self.count = 0
+            self.made = False
+            self.mission = self.trip = self.leader = self.follower = None
+            self.route = []
+            if at == "initialize":
+                self.make()
+            self.provider.schedule_timer("report", self.provider.current_time() + 1)
+
+        def make(self):
+            self.made = True
+            for sp in specs:
+                if sp["p"] == "mission":
+                    self.mission = MissionMobilityPlugin(self, MissionMobilityConfiguration(
+                        speed=sp["speed"], loop_mission=LoopMission[sp["loop"]], tolerance=sp["tol"]))
+                    self.route = [tuple(w) for w in sp["waypoints"]]
+                    self.mission.start_mission(list(self.route))
+                elif sp["p"] == "random":
+                    self.trip = RandomMobilityPlugin(self, RandomMobilityConfig(tolerance=sp["tol"]))
+                    self.trip.initiate_random_trip()
+                elif sp["p"] == "leader":
+                    self.leader = MobilityLeaderPlugin(self, MobilityLeaderConfiguration(
+                        broadcast_interval=sp["interval"], follower_timeout=sp["timeout"]))
+                elif sp["p"] == "follower":
+                    self.follower = MobilityFollowerPlugin(self, MobilityFollowerConfiguration(
+                        scanning_interval=sp["scan"], leader_timeout=sp["timeout"]))
+                    self.follower.set_relative_position(tuple(sp["rel"]))
+
+        def status(self):
+            out = []
+            if self.mission is not None:
+                out.append(f"wp={self.mission.current_waypoint} idle={self.mission.is_idle} rev={self.mission.is_reversed}")
+            if self.trip is not None:
+                out.append(f"trip={self.trip.trip_ongoing} target={self.trip.current_target}")
+            if self.leader is not None:
+                out.append(f"followers={sorted(self.leader.followers)}")
+            if self.follower is not None:
+                out.append(f"leader={self.follower.current_leader} at={self.follower.current_leader_position} "
+                           f"known={sorted(self.follower.available_leaders)}")
+            return "; ".join(out) if self.made else "-"
+
+        def say(self, text):
+            self.provider.send_communication_command(BroadcastMessageCommand(text))
+
+        def handle_timer(self, timer):
+            if not self.made:
+                self.make()
+            self.count += 1
+            if timer == "report":
+                self.say(f"{self.provider.get_id()} #{self.count} {self.status()}")
+                self.provider.schedule_timer("report", self.provider.current_time() + 1)
+            elif timer == "halt":
+                if self.mission is not None:
+                    self.mission.stop_mission()
+                if self.trip is not None:
+                    self.trip.finish_random_trip()
+            elif timer == "again":
+                if self.mission is not None:
+                    self.mission.start_mission(list(self.route))
+                if self.trip is not None:
+                    self.trip.initiate_random_trip()
+            elif timer in ("turn", "skip") and self.mission is not None:
+                try:
+                    if timer == "turn":
+                        self.mission.set_reversed(not self.mission.is_reversed)
+                    else:
+                        self.mission.set_current_waypoint(1)
+                except MissionMobilityPluginException:
+                    self.say(f"{timer} not possible")
+            else:
+                self.say(f"timer {timer} #{self.count}")
+
+        def handle_packet(self, message):
+            self.count += 1
+            self.provider.tracked_variables["last"] = message[:24]
+            self.provider.send_communication_command(SendMessageCommand(f"ack #{self.count}", self.provider.get_id() + 1))
+
+        def handle_telemetry(self, telemetry):
+            self.count += 1
+            if self.count % 3 == 0:
+                self.say(f"at {tuple(telemetry.current_position)} {self.status()}")
+
+        def finish(self):
+            self.provider.tracked_variables["done"] = self.status()
+
+    return PluginProtocol
+
+
+def deliver_plain(enc, step):
+    kind, key = step[1], step[2]
+    if kind == "telemetry":
+        return enc.handle_telemetry(Telemetry(current_position=tuple(step[3])))
+    return deliver(enc, step)
+
+
+def run_plugins(case):
+    """ONE protocol class built from stock plugins under both real wrappers, the same callbacks at the same times"""
+    cls = make_plugin_protocol(case)
+    state = random.getstate()
+    try:
+        # --- interop
+        random.seed(case.get("rseed", 0))           # RandomMobilityPlugin draws from the global generator
+        enc = InteropEncapsulator()
+        enc.encapsulate(cls)
+        enc.set_id(case["id"])
+        io = []
+        for step in case["steps"]:
+            enc.set_timestamp(step[0] / TICK)
+            try:
+                ret = deliver_plain(enc, step)
+                io.append({"ret": [plain_request(c) for c in ret], "raised": None})
+            except Exception as e:
+                io.append({"ret": None, "raised": type(e).__name__})
+        pending = len(enc.provider.consequences)
+        # --- python
+        random.seed(case.get("rseed", 0))
+        rec = _PlugRec()
+        node = Node()
+        node.id = case["id"]
+        node.position = (0.0, 0.0, 0.0)
+        penc = PythonEncapsulator(node, timer=PlugTimerStub(rec), communication=PlugCommStub(rec), mobility=PlugMobStub(rec))
+        penc.encapsulate(cls)
+        node.protocol_encapsulator = penc
+        py = []
+        for step in case["steps"]:
+            rec.now = step[0] / TICK
+            rec.cur = []
+            try:
+                deliver_plain(penc, step)
+                py.append({"req": rec.cur, "raised": None})
+            except Exception as e:
+                py.append({"req": rec.cur, "raised": type(e).__name__})
+        tv = {k: repr(v) for k, v in penc.provider.tracked_variables.items()}
+    finally:
+        random.setstate(state)
+    return {"interop": io, "python": py, "pending": pending, "tvPython": tv, "refused": rec.refused}
+
+
+def gen_plugins_case(seed, i):
+    s = stable_hash("C14-plugins", seed, i)
+    r = random.Random(s)
+    rseed = r.randrange(1 << 30)
+    mob = r.choice(["mission", "mission", "mission", "random", "follower", None])
+    specs, targets = [], []
+    if mob == "mission":
+        grid = [(float(x), float(y), float(z)) for x in (0, 5, 10) for y in (0, 5) for z in (0, 4)]
+        way = r.sample(grid, r.randint(2, 4))
+        specs.append({"p": "mission", "waypoints": [list(w) for w in way], "loop": r.choice(["NO", "RESTART", "REVERSE"]),
+                      "tol": r.choice([0.5, 1.0]), "speed": r.choice([5, 2.5])})
+        targets = way * 3
+    elif mob == "random":
+        specs.append({"p": "random", "tol": 1.0})
+        rr = random.Random(rseed)               # the trip the plugin will draw from the generator seeded alike
+        targets = [(rr.uniform(-50, 50), rr.uniform(-50, 50), rr.uniform(0, 50)) for _ in range(8)]
+    elif mob == "follower":
+        specs.append({"p": "follower", "scan": 0.5, "timeout": r.choice([2.0, 0.75]), "rel": [1.0, 0.0, -1.0]})
+    if mob is None or r.random() < 0.35:
+        specs.append({"p": "leader", "interval": r.choice([0.5, 0.25]), "timeout": 3})
+    r.shuffle(specs)
+    social = any(sp["p"] in ("leader", "follower") for sp in specs)      # their first timers are absolute times
+    at = "initialize" if social else r.choice(["initialize", "initialize", "lazy"])
+    steps = [[0, "initialize", ""]]
+    t, nxt = 0, 0
+    for _ in range(r.randint(8, 28)):
+        t += r.choice([0, 0, 256, 512, 1024])
+        kind = r.choices(["telemetry", "timer", "packet"], [5, 3, 2])[0]
+        if kind == "telemetry":
+            if targets and r.random() < 0.65:
+                base = targets[nxt % len(targets)]
+                near = r.random() < 0.8
+                pos = (base[0] + r.choice([0.0, 0.25, -0.25] if near else [3.0, -2.0]), base[1], base[2])
+                nxt += 1 if near else 0
+            elif targets:
+                pos = r.choice(targets)
+            else:
+                pos = (float(r.randint(-9, 9)), float(r.randint(-9, 9)), 2.0)
+            steps.append([t, "telemetry", "", list(pos)])
+        elif kind == "timer":
+            steps.append([t, "timer", r.choice(["report", "report", "halt", "again", "turn", "skip", "x",
+                                                BROADCAST_TIMER_TAG, BROADCAST_TIMER_TAG, FOLLOWER_TIMER_TAG,
+                                                FOLLOWER_TIMER_TAG])])
+        else:
+            who = r.choice([5, 6])
+            msg = r.choice([f"{LEADER_TAG}:" + json.dumps({"id": who, "position": [float(r.randint(-9, 9)), 2.5, 7.0]}),
+                            f"{LEADER_TAG}:" + json.dumps({"id": who, "position": [1.0, float(r.randint(-9, 9)), 0.0]}),
+                            f"{FOLLOWER_TAG}:{r.choice([7, 8])}", f"hello {r.randint(0, 9)}"])
+            steps.append([t, "packet", msg])
+    if r.random() < 0.7:
+        steps.append([t + r.choice([0, 1024]), "finish", ""])
+    return {"kind": "plugins", "seed": s, "rseed": rseed, "id": r.choice([0, 1, 3]), "plugins": specs, "at": at,
+            "steps": steps, "label": f"gen-plugins/{seed}/{i}"}
 
 
 def run_shared_class():
@@ -564,6 +939,11 @@ ROUTE = {"setTimer": "timer", "cancelTimer": "timer", "send": "communication", "
          "goto": "mobility", "gotoGeo": "mobility", "setSpeed": "mobility"}
 CTYPE_OF = {"setTimer": "timer", "send": "communication", "broadcast": "communication", "goto": "mobility",
             "gotoGeo": "mobility", "setSpeed": "mobility", "track": "trackVariable"}
+
+
+def row_acts(row):
+    """every entry of a table row: the protocol's own method and the handlers plugged in front of it"""
+    return list(row["acts"]) + [a for st in row.get("stages") or [] for a in st]
 
 
 def consequence_of(act, codes):
@@ -650,7 +1030,11 @@ class C14(Check):
                   "variables apart; extension methods on a non-python provider return neutral values and issue nothing; "
                   "with any number of wrapped instances of the protocol class alive at once and their callbacks interleaved, "
                   "every instance returns / performs / forwards what it does when driven alone (the other instances, and the "
-                  "other instances of the other run, do not matter). "
+                  "other instances of the other run, do not matter); a protocol with handlers plugged in front of its "
+                  "callbacks through its dispatcher (whenever it plugs them) is a protocol like any other: returns-exactly for "
+                  "every such chain, wrapper equivalence for acceptance-independent chains under arbitrary refusals and for "
+                  "any chain when nothing is refused; take_picture without a mobility handler hands out an empty list of its "
+                  "own whatever was done to the earlier ones. "
                   "The model is tied to both real wrappers and the real extension classes by differential execution.")
     rule = ("one table-driven IProtocol class under InteropEncapsulator (set_id/set_timestamp) and under PythonEncapsulator with "
             "recording handler stubs, same callback sequence (initialize, 3-14 timer/packet/telemetry callbacks at "
@@ -664,17 +1048,31 @@ class C14(Check):
             "tracked variable it reads back, broadcasts a tracked variable it reads back; names shared by the instances); "
             "half of the cases draw callback contents from a small alphabet (a node that does not move incl. 0.0 / -0.0, "
             "re-sent packets) and a callback is repeated unchanged with probability 0 / 0.25 / 0.5; "
+            "the protocol completes the picture lists its camera hands it (append/extend/insert/+=) and broadcasts their "
+            "length (weight 0.5, in the memory half 2 of ~21); 40% of the cases with 1-3 handlers registered through "
+            "create_dispatcher from the protocol's own initialize() (2/3) or at the first event (1/3), each with its own "
+            "action list per callback, one of them answering INTERRUPT in 30% of the callbacks; "
             "plus every public method of the three real extension classes on the interop-wrapped "
-            "protocol; non-trivial = some callbacks issue 0 and others >= 3 requests of >= 2 consequence types")
+            "protocol; non-trivial = some callbacks issue 0 and others >= 3 requests of >= 2 consequence types. "
+            "Plus 150 (thorough 3000) protocols built from the stock plugins created in initialize() or at the first timer "
+            "(mission with 2-4 waypoints and NO/RESTART/REVERSE loops, seeded random trip, leader, follower; 8-28 callbacks: "
+            "telemetry mostly at the next waypoint / predicted random target, own and plugin timers, leader / follower / "
+            "other packets; the protocol calls stop/start/set_reversed/set_current_waypoint and broadcasts the plugins' "
+            "public status), under both wrappers, compared callback by callback (predicate only)")
     assumptions = ["callbacks return normally (a protocol that lets cancel_timer's NotImplementedError escape is finding F14b)",
                    "wrapper equivalence is claimed for programs that do not branch on refusals, or runs in which nothing is "
                    "refused; cancel_timer has no interop counterpart",
                    "all three handlers are configured on the python side",
                    "the callbacks of one node are delivered one at a time (no re-entrancy); a replay file is judged alone, "
-                   "in a process that has run no other case"]
+                   "in a process that has run no other case",
+                   "python side of a picture: the stub mobility handler knows no other node, so the picture is empty there too",
+                   "stock-plugin cases: the plugins' own logic is not modelled (C16/C17); RandomMobilityPlugin draws from the "
+                   "global generator, seeded alike before each leg; cases in which a python-side handler refuses a request "
+                   "are outside the claim (none generated)"]
     modelled = ["gradysim/encapsulator/interop.py", "gradysim/encapsulator/python.py",
                 "gradysim/simulator/extension/extension.py",
-                "gradysim/simulator/extension/camera.py (no-op decision)",
+                "gradysim/simulator/extension/camera.py (no-op decision, a new list per picture)",
+                "gradysim/protocol/plugin/dispatcher.py (chain order and INTERRUPT, as seen by the wrappers)",
                 "gradysim/simulator/extension/communication_controller.py",
                 "gradysim/simulator/extension/visualization_controller.py (no-op decision)"]
 
@@ -746,13 +1144,24 @@ class C14(Check):
                         t = steps[-1][0]
             prof = {"pGuarded": 0.25 if i % 3 == 2 else 0.0}
             if i % 2 == 1:
-                # a protocol with memory: counts its callbacks, reads its tracked variables back
+                # a protocol with memory: counts its callbacks, reads its tracked variables back, completes the
+                # pictures its camera hands it
                 prof["w"] = {"setTimer": 4, "send": 2, "broadcast": 1.5, "goto": 1, "gotoGeo": 0.5, "setSpeed": 0.7,
                              "track": 2.5, "ext": 1, "setRange": 0.5, "cancelTimer": 0.3,
-                             "trackInc": 2, "sendTracked": 2.5, "sendCount": 1.5}
-            yield {"kind": "wrappers", "seed": s, "id": ids[0], "ids": ids, "who": who, "legs": legs, "steps": steps,
-                   "profile": prof, "extRange": fbits(r.choice([25.0, 0.0, -3.0, 60.0])), "label": f"gen/{seed}/{i}",
-                   "sharedClass": i % 40 == 3}
+                             "trackInc": 2, "sendTracked": 2.5, "sendCount": 1.5, "picReport": 2}
+            case = {"kind": "wrappers", "seed": s, "id": ids[0], "ids": ids, "who": who, "legs": legs, "steps": steps,
+                    "profile": prof, "extRange": fbits(r.choice([25.0, 0.0, -3.0, 60.0])), "label": f"gen/{seed}/{i}",
+                    "sharedClass": i % 40 == 3}
+            rp = random.Random(stable_hash("C14-plug", seed, i))
+            if i % 5 in (1, 3):
+                # a protocol built from plugins: like every stock plugin it asks for the dispatcher of its instance
+                # (which replaces the instance's callback methods) and registers handlers in front of its own
+                # callbacks — in initialize(), where the provider is there, or when the first event arrives
+                case["plug"] = {"stages": rp.choice([1, 2, 2, 3]), "at": rp.choice(["initialize", "initialize", "lazy"])}
+            yield case
+        # protocols built from the stock plugins (mission, random trip, leader, follower)
+        for i in range(150 if tier == "quick" else 3000):
+            yield gen_plugins_case(seed, i)
 
     def behaviour(self, case):
         if case.get("frozen"):
@@ -762,6 +1171,12 @@ class C14(Check):
     # ---- implementation
     def run_impl(self, case):
         quiet_logging()
+        if case.get("kind") == "plugins":
+            with warnings.catch_warnings():
+                warnings.simplefilter("ignore")
+                out = run_plugins(case)
+            quiet_logging()
+            return out
         with warnings.catch_warnings():
             warnings.simplefilter("ignore")
             io = run_interop(case, self.behaviour(case))
@@ -774,9 +1189,12 @@ class C14(Check):
         return {"interop": io, "python": py, "table": py["table"], "ctypes": ctype_codes(), "shared": shared}
 
     def model_input(self, case, impl):
+        if case.get("kind") == "plugins":
+            return None          # the stock plugins' own logic is not modelled here (C16, C17); predicate only
         return {"kind": "interop", "id": case_ids(case)[0], "ids": case_ids(case), "who": case_who(case),
                 "legs": case_legs(case), "steps": case["steps"], "table": impl["table"],
-                "ctypes": impl["ctypes"], "extRange": case.get("extRange", fbits(25.0))}
+                "ctypes": impl["ctypes"], "extRange": case.get("extRange", fbits(25.0)),
+                "plug": case.get("plug") or {"stages": 0, "at": "initialize"}}
 
     def compare(self, case, impl, model):
         diffs = []
@@ -820,7 +1238,44 @@ class C14(Check):
             self.__dict__.setdefault("_failed", []).append((case, [sig for sig, _ in fails]))
         return fails
 
+    def predicate_plugins(self, case, impl):
+        """a deterministic protocol (built from stock plugins) fed the same callbacks at the same times issues the
+        same requests in both wrappers, callback by callback; nothing is left over"""
+        fails = []
+        steps = case["steps"]
+        if impl["refused"]:
+            return fails         # a python-side handler refused a request: outside the claim (interop validates nothing)
+        tv = {}
+        for j, (a, b) in enumerate(zip(impl["interop"], impl["python"])):
+            if a["raised"] != b["raised"]:
+                fails.append(("C14:wrappers-differ", f"callback #{j} {steps[j][:3]}: interop "
+                              f"{'raised ' + a['raised'] if a['raised'] else 'returned'}, python "
+                              f"{'raised ' + b['raised'] if b['raised'] else 'returned'}"))
+                break
+            if a["raised"]:
+                break            # an exception escaped in both: the rest is outside the claim
+            for r in a["ret"]:
+                if r[0] == "track":
+                    tv[r[1]] = r[2]
+            got = [r for r in a["ret"] if r[0] != "track"]
+            want = [r for r in b["req"] if r[0] != "cancelTimer"]
+            if got != want:
+                d = next((i for i, (x, y) in enumerate(zip(got, want)) if x != y), min(len(got), len(want)))
+                fails.append(("C14:wrappers-differ", f"callback #{j} {steps[j][:3]} (protocol with plugins "
+                              f"{[sp['p'] for sp in case['plugins']]} created at {case.get('at')}): request number {d} is "
+                              f"{got[d:d + 2]} under interop but {want[d:d + 2]} under python "
+                              f"({len(got)} / {len(want)} requests in this callback)"))
+                break
+        else:
+            if tv != impl["tvPython"]:
+                fails.append(("C14:wrappers-differ", f"tracked variables: interop returned {tv}, python holds {impl['tvPython']}"))
+            if impl["pending"]:
+                fails.append(("C14:left-over", f"{impl['pending']} consequence(s) pending after the last callback"))
+        return fails
+
     def predicate(self, case, impl):
+        if case.get("kind") == "plugins":
+            return self.predicate_plugins(case, impl)
         fails = []
         codes = impl["ctypes"]
         io, py = impl["interop"], impl["python"]
@@ -838,7 +1293,30 @@ class C14(Check):
                               f"communication controller on the python-wrapped instance gave {p}; expected range 25.0"))
         # protocol-visible inputs: every delivered callback reaches its protocol instance exactly once, with the
         # node's id, the time and the payload it was delivered with — identical in both wrappers
+        plugged = bool((case.get("plug") or {}).get("stages"))
+        for name, idx, reached in (("interop", io_idx, [cb.get("reached") for cb in cbs]), ("python", py_idx, py.get("reached"))):
+            # a protocol with handlers plugged in front of its callbacks: every handler a delivered callback
+            # reaches sees that callback, the protocol's own method at most once and last
+            if not plugged or reached is None:
+                continue
+            for j, i in enumerate(idx):
+                st = steps[i]
+                want = [ids[who[i]], st[1], st[2], st[0], st[3] if st[1] == "telemetry" else None]
+                got = reached[j] if j < len(reached) else None
+                tags = [a[0] for a in got or []]
+                if not got:
+                    what = "reached no handler of the protocol"
+                elif any(a[1:] != want for a in got):
+                    what = f"reached handlers that saw (id, kind, payload, time, position) = {[a[1:] for a in got if a[1:] != want][:2]}"
+                elif tags.count("own") > 1 or ("own" in tags and tags[-1] != "own"):
+                    what = f"reached the handlers {tags}: the protocol's own method more than once or not last"
+                else:
+                    continue
+                fails.append(("C14:callback-inputs", f"{name} wrapper: step #{i} {want} {what}"))
+                break
         for name, idx, leg in (("interop", io_idx, io), ("python", py_idx, py)):
+            if plugged:
+                continue
             want = [[ids[who[i]], steps[i][1], steps[i][2], steps[i][0]] for i in idx]
             got = leg["triggers"]
             if got != want:
@@ -903,20 +1381,32 @@ class C14(Check):
             mine_io = [(i, cbs[j]) for j, i in enumerate(io_idx) if who[i] == inst]
             mine_py = [(i, py["transcripts"][j], py["raised"][j]) for j, i in enumerate(py_idx) if who[i] == inst]
             used = [rows.get(trig_key(ids[inst], steps[i][1], steps[i][2], steps[i][0])) for i, _ in mine_io]
-            listlike = all(r is None or all(a[0] != "onRefused" for a in r["acts"]) for r in used)
+            listlike = all(r is None or all(a[0] != "onRefused" for a in row_acts(r)) for r in used)
             uncaught = any(r is not None and r.get("uncaught") for r in used)
             refused = any(not ok for _, tr, _ in mine_py for _, ok in tr) or \
                 any(not ok for _, cb in mine_io for _, ok in cb["transcript"])
             all_returned = all(not isinstance(cb["ret"], str) for _, cb in mine_io) and all(x is None for _, _, x in mine_py)
             if not (all_returned and not uncaught and (listlike or not refused)):
                 continue
+            if plugged:
+                # the same handlers of the protocol are reached, callback by callback, in the same order
+                hit_io = [[a[0] for a in cb.get("reached") or []] for _, cb in mine_io]
+                hit_py = [[a[0] for a in py["reached"][j]] for j, i in enumerate(py_idx) if who[i] == inst]
+                if hit_io != hit_py:
+                    k = next((i for i, (x, y) in enumerate(zip(hit_io, hit_py)) if x != y), 0)
+                    at = mine_io[k][0]
+                    fails.append(("C14:wrappers-differ", f"callback #{at} {steps[at][:3]} of node {ids[inst]} reached the "
+                                  f"protocol's handlers {hit_io[k]} under interop but {hit_py[k]} under python "
+                                  f"(numbers: handlers the protocol registered with its dispatcher, in registration order)"))
             acts_io = [[a for a, _ in cb["transcript"]] for _, cb in mine_io]
             acts_py = [[a for a, _ in tr] for _, tr, _ in mine_py]
             if acts_io != acts_py:
                 k = next((i for i, (x, y) in enumerate(zip(acts_io, acts_py)) if x != y), 0)
                 at = mine_io[k][0]
-                fails.append(("C14:wrappers-differ", f"callback #{at} {steps[at][:3]} of node {ids[inst]}: the protocol issued "
-                              f"{acts_io[k][:4]} under interop but {acts_py[k][:4]} under python"))
+                d = next((i for i, (x, y) in enumerate(zip(acts_io[k], acts_py[k])) if x != y), min(len(acts_io[k]), len(acts_py[k])))
+                fails.append(("C14:wrappers-differ", f"callback #{at} {steps[at][:3]} of node {ids[inst]}: request number {d} the "
+                              f"protocol issued is {acts_io[k][d:d + 2]} under interop but {acts_py[k][d:d + 2]} under python "
+                              f"({len(acts_io[k])} / {len(acts_py[k])} requests in this callback)"))
             fwd = [consequence_of(a, codes) for _, a, _, k in py["log"] if a[0] != "cancelTimer" and k == inst]
             ret = [c for _, cb in mine_io for c in cb["ret"] if c[0] != codes["trackVariable"]]
             if fwd != ret:
@@ -926,7 +1416,7 @@ class C14(Check):
         # C. extensions are no-ops outside the python simulator
         for j, cb in enumerate(cbs):
             for a, ok in cb["transcript"]:
-                if not ok and (a[0] == "ext" or (a[0] == "setRange" and bitsf(a[1]) >= 0)):
+                if not ok and (a[0] in ("ext", "picReport") or (a[0] == "setRange" and bitsf(a[1]) >= 0)):
                     fails.append(("C14:extension-not-noop", f"interop callback #{io_idx[j]}: {a} raised "
                                   f"({sorted(set(io['exc']))}) instead of being a no-op"))
         for name, ret in io["extBad"]:
@@ -943,6 +1433,9 @@ class C14(Check):
 
     # ---- bookkeeping
     def nontrivial(self, case, impl):
+        if case.get("kind") == "plugins":
+            sizes = [len(a["ret"] or []) for a in impl["interop"]]
+            return 0 in sizes[1:] and sum(sizes[1:]) >= 4 and len({r[0] for a in impl["interop"][1:] for r in a["ret"] or []}) >= 2
         codes = impl["ctypes"]
         cbs = impl["interop"]["callbacks"]
         zero = any(len(cb["transcript"]) == 0 for cb in cbs)
@@ -954,9 +1447,14 @@ class C14(Check):
         return zero and rich
 
     def key(self, case, impl):
+        if case.get("kind") == "plugins":
+            return json.dumps([a["ret"] for a in impl["interop"]], sort_keys=True, default=str)
         return json.dumps([[cb["ret"], cb["transcript"]] for cb in impl["interop"]["callbacks"]], sort_keys=True, default=str)
 
     def sample(self, case, impl):
+        if case.get("kind") == "plugins":
+            return {"label": case.get("label"), "plugins": case["plugins"], "at": case.get("at"), "steps": case["steps"][:6],
+                    "interop_returns": [a["ret"] for a in impl["interop"][:4]], "python_requests": [b["req"] for b in impl["python"][:4]]}
         return {"label": case.get("label"), "ids": case_ids(case), "legs": case_legs(case), "who": case_who(case)[:6],
                 "steps": case["steps"][:6],
                 "interop_returns": [cb["ret"] for cb in impl["interop"]["callbacks"][:3]],
@@ -967,6 +1465,27 @@ class C14(Check):
             acc[k] = acc.get(k, 0) + n
         bump("cases")
         bump("callbacks", len(case["steps"]))
+        if case.get("kind") == "plugins":
+            bump("stock_plugin_cases")
+            for sp in case["plugins"]:
+                bump("stock_plugin_" + sp["p"])
+            bump("stock_plugins_created_" + case.get("at", "initialize"))
+            if impl["refused"]:
+                bump("stock_plugin_cases_with_a_refused_request")
+            for st, a in zip(case["steps"], impl["interop"]):
+                if st[1] == "telemetry" and any(r[0] in ("goto", "garbled") for r in a["ret"] or []):
+                    bump("stock_plugin_waypoint_reached")        # only a plugin's telemetry handler sends these
+                if st[1] in ("timer", "packet") and str(st[2]).startswith("FollowMobilityPlugin") and (a["ret"] or []):
+                    bump("stock_plugin_own_event_answered")
+            return
+        if case.get("plug"):
+            bump(f"cases_with_handlers_plugged_at_{case['plug']['at']}")
+            for cb in impl["interop"]["callbacks"]:
+                tags = [a[0] for a in cb.get("reached") or []]
+                if len(tags) > 1:
+                    bump("callbacks_through_plugged_handlers")
+                if tags and "own" not in tags:
+                    bump("callbacks_interrupted_by_a_plugged_handler")
         ids, who, legs = case_ids(case), case_who(case), case_legs(case)
         bump(f"cases_with_{len(ids)}_instances")
         if legs["interop"] != legs["python"]:
@@ -1002,7 +1521,13 @@ class C14(Check):
             for a, ok in tr:
                 if not ok:
                     bump("python_refused_" + a[0])
-        if any(any(a[0] == "onRefused" for a in r["acts"]) for r in impl["table"]):
+        for tg in impl["python"]["triggers"]:
+            row = rows.get(trig_key(*tg))
+            for a in (row_acts(row) if row else []):
+                for x in ([a[1]] + list(a[2]) if a[0] == "onRefused" else [a]):
+                    if x[0] == "picReport":
+                        bump("picture_" + ("read" if x[1] == "read" else "completed") + "_and_reported")
+        if any(any(a[0] == "onRefused" for a in row_acts(r)) for r in impl["table"]):
             bump("cases_branching_on_refusal")
 
     def shrink(self, case, still_fails):
@@ -1024,6 +1549,8 @@ class C14(Check):
             def both(c):
                 return still_fails(c) and alone(c)
 
+            if case.get("kind") == "plugins":
+                return self.minimise_plugins(case, both if alone(case) else still_fails)
             start = case
             if not alone(case):
                 for c, sg in failed[:200]:
@@ -1034,6 +1561,23 @@ class C14(Check):
         finally:
             fresh.close()
             self._shrinking = False
+
+    def minimise_plugins(self, case, still_fails):
+        best = copy.deepcopy(case)
+        changed = True
+        while changed:
+            changed = False
+            for i in range(len(best["steps"]) - 1, 0, -1):
+                cand = copy.deepcopy(best)
+                del cand["steps"][i]
+                if still_fails(cand):
+                    best, changed = cand, True
+            for i in range(len(best["plugins"]) - 1, -1, -1):
+                cand = copy.deepcopy(best)
+                del cand["plugins"][i]
+                if still_fails(cand):
+                    best, changed = cand, True
+        return best
 
     def minimise(self, case, still_fails):
         impl = self.run_impl(case)
@@ -1046,9 +1590,24 @@ class C14(Check):
             best.pop("sharedClass", None)
         if not still_fails(best):
             return case
+        if best.get("plug"):
+            cand = copy.deepcopy(best)          # the same protocol without its plugged handlers
+            del cand["plug"]
+            for row in cand["table"]:
+                row.pop("stages", None)
+                row.pop("stop", None)
+            if still_fails(cand):
+                best = cand
         changed = True
         while changed:
             changed = False
+            for ri in range(len(best["table"])):
+                for si in range(len(best["table"][ri].get("stages") or [])):
+                    for ai in range(len(best["table"][ri]["stages"][si]) - 1, -1, -1):
+                        cand = copy.deepcopy(best)
+                        del cand["table"][ri]["stages"][si][ai]
+                        if still_fails(cand):
+                            best, changed = cand, True
             for i in range(len(best["steps"]) - 1, -1, -1):
                 if best["steps"][i][1] == "initialize" and best["who"][i] == 0:
                     continue
@@ -1065,7 +1624,8 @@ class C14(Check):
                         best, changed = cand, True
         keys = {trig_key(best["ids"][k], s[1], s[2], s[0]) for s, k in zip(best["steps"], best["who"])}
         final = copy.deepcopy(best)
-        final["table"] = [r for r in best["table"] if trig_key(r["n"], r["cb"], r["key"], r["t"]) in keys and r["acts"]]
+        final["table"] = [r for r in best["table"] if trig_key(r["n"], r["cb"], r["key"], r["t"]) in keys
+                          and (r["acts"] or any(r.get("stages") or []) or r.get("stop") is not None)]
         return final if still_fails(final) else best
 
 
